@@ -226,3 +226,28 @@ End Build.
 (* the operations a reader finds in the document: every field of every path item *)
 Definition doc_ops (m : list (dkey * opd)) : list op :=
   map (fun kv => op_of (slot_verb (snd (fst kv))) (fst (fst kv)) (snd kv)) m.
+
+(* ---- openapi:generate=false ---- *)
+
+(* A design as finalized, with the marks that Meta("openapi:generate", "false") (or
+   swagger:generate) leaves on a service (ServiceExpr or HTTPServiceExpr), on an endpoint
+   (MethodExpr or HTTPEndpointExpr) and on a file server. The generated server mounts
+   everything; both builders skip what is marked (openapi.MustGenerate). *)
+Record mendpoint := mkme { me_ep : endpoint; me_gen : bool }.
+Record mfile := mkmf { mf_fs : fileserver; mf_gen : bool }.
+Record mservice := mkms { ms_eps : list mendpoint; ms_files : list mfile; ms_gen : bool }.
+Record mdesign := mkmd { md_services : list mservice; md_reqs : list (list N) }.
+
+Definition sel_service (keep : bool -> bool -> bool) (s : mservice) : service :=
+  mks (map me_ep (filter (fun e => keep (ms_gen s) (me_gen e)) (ms_eps s)))
+      (map mf_fs (filter (fun f => keep (ms_gen s) (mf_gen f)) (ms_files s))).
+
+(* what the server mounts: everything *)
+Definition mounted (m : mdesign) : design :=
+  mkd (map (sel_service (fun _ _ => true)) (md_services m)) (md_reqs m).
+(* what the documents are built from: services, endpoints and file servers not marked *)
+Definition visible (m : mdesign) : design :=
+  mkd (map (sel_service (fun sg g => sg && g)) (md_services m)) (md_reqs m).
+(* the rest *)
+Definition hidden (m : mdesign) : design :=
+  mkd (map (sel_service (fun sg g => negb (sg && g))) (md_services m)) (md_reqs m).
